@@ -94,6 +94,9 @@ def load_families():
     F['flow-seq-multiline'] = lambda n: '[\n' + ' a,\n' * n + ']'
     F['documents'] = lambda n: '--- a\n' * n
     F['documents-end'] = lambda n: 'a\n...\n' * n
+    F['documents-explicit-end'] = lambda n: '--- a\n...\n' * n
+    F['documents-tag-directives'] = lambda n: ''.join('%%TAG !h%d! tag:e.com,%d:\n--- !h%d!t "v"\n' % (i, i, i) for i in range(n))
+    F['documents-yaml-directives'] = lambda n: '%YAML 1.1\n--- "v"\n' * n
     F['anchors-aliases'] = lambda n: ''.join('- &a%d x\n- *a%d\n' % (i, i) for i in range(n))
     F['aliases-one-anchor'] = lambda n: '- &a [x]\n' + '- *a\n' * n
     F['merges'] = lambda n: '- &m {a: 1, b: 2}\n' + '- {<<: *m, c: 3}\n' * n
@@ -245,6 +248,26 @@ def measure(T, sub, name, mk_fn, detail=''):
         T.violation(sub, 'superlinear-work', {'family': name}, detail='%s: work at n, 2n, 4n (n=%d) = %r: ratios %.2f and %.2f exceed %.1f %s' % (name, N0, ws, r1, r2, TOL, detail))
 
 
+# event- and node-level output (yaml.emit / yaml.serialize_all) of the parsed / composed form of these load families
+EMIT_FAMILIES = ('documents', 'documents-explicit-end', 'documents-tag-directives', 'documents-yaml-directives', 'anchors-aliases', 'aliases-one-anchor', 'block-seq', 'block-map',
+                 'flow-seq', 'flow-map', 'tags', 'verbatim-tags', 'plain-words', 'literal', 'folded', 'double-quoted', 'double-escapes', 'seq-of-maps', 'complex-keys',
+                 'quoted-key-long', 'tag-long', 'anchor-long', 'unicode-plain')
+
+
+def _emit_jobs(T, name):
+    f = load_families()[name]
+
+    def mk_emit(n):
+        evs = list(yaml.parse(f(n)))
+        return lambda: yaml.emit(evs)
+
+    def mk_ser(n):
+        nodes = list(yaml.compose_all(f(n)))
+        return lambda: yaml.serialize_all(nodes)
+    measure(T, 'emit', 'emit:' + name, mk_emit)
+    measure(T, 'emit', 'serialize_all:' + name, mk_ser)
+
+
 def gen_units(alpha):
     for a in alpha:
         yield a
@@ -258,6 +281,7 @@ def plan(tier, seed):
     jobs = [('load', name) for name in load_families()]
     jobs += [('loadwild', name) for name in ('block-seq', 'plain-words', 'flow-seq', 'block-map', 'seq-of-maps', 'keyword-like-words', 'keyword-like-keys', 'ints', 'bools-nulls')]
     jobs += [('loadunsafe', name) for name in unsafe_families()]
+    jobs += [('emit', name) for name in EMIT_FAMILIES]
     jobs += [('dumpfull', name) for name in ('shared-tuple-square', 'shared-list-square', 'list-small-lists', 'shared-many', 'dict-keys')]
     jobs += [('dump', name) for name in dump_values()]
     jobs += [('dumpwild', name) for name in ('list-distinct-strs', 'dict-keys', 'list-strs', 'keyword-like-strs', 'list-ints')]
@@ -288,6 +312,9 @@ def run_job(job, T):
         f = unsafe_families()[job[1]]
         measure(T, 'load', 'unsafe_load:' + job[1], lambda n: _load(f(n), yaml.UnsafeLoader))
         T.sample('load', {'family': 'unsafe:' + job[1], 'text_at_n=2': f(2)})
+    elif kind == 'emit':
+        _emit_jobs(T, job[1])
+        T.sample('emit', {'family': job[1]})
     elif kind == 'dumpfull':
         v = dump_values()[job[1]]
         measure(T, 'dump', 'dump-full-dumper:' + job[1], lambda n: (lambda val=v(n): yaml.dump(val, Dumper=yaml.Dumper)))
@@ -346,7 +373,9 @@ def finalize(agg, tier, seed):
 def replay(sub, case, T):
     T.extra = {}
     name = case['family']
-    if name.startswith('load:'):
+    if name.startswith('emit:') or name.startswith('serialize_all:'):
+        _emit_jobs(T, name.split(':', 1)[1])
+    elif name.startswith('load:'):
         f = load_families()[name[5:]]
         measure(T, sub, name, lambda n: _load(f(n)))
     elif name.startswith('load-wildcard-resolver:'):
